@@ -135,6 +135,11 @@ func main() {
 	defer w.Flush()
 	enc := json.NewEncoder(w)
 
+	if cmd == "follow" {
+		props.Init()
+		props.FollowFile(*tapePath)
+		return
+	}
 	if cmd == "list" {
 		for _, id := range props.IDs() {
 			fmt.Fprintln(w, id)
